@@ -276,6 +276,54 @@ pub fn run(ctx: &Ctx) -> PropResult {
             }
         }
     }));
+    // (2b) pile-ups: many fields for the SAME component in one pattern (every width of `n`, several hour/year/day
+    // symbols …) with every digit at its maximum — each field is in range, their sum or product need not be
+    wls.push(Workload::cases("same_component_pile_ups", ctx.count(30_000, 1_000_000), move |rec, idx, rng| {
+        let groups: [&[(&str, &str)]; 7] = [
+            &[("n", "9"), ("nn", "99"), ("nnn", "999"), ("nnnn", "999999"), ("nnnnn", "999999999"), ("nnnnnnn", "999"), ("nnnnnn", "999")],
+            &[("H", "23"), ("HH", "23"), ("h", "12"), ("hh", "12"), ("K", "11"), ("k", "24"), ("kk", "24")],
+            &[("y", "5879611"), ("yyyy", "9999"), ("yyyyy", "99999"), ("yyyyyyy", "5879611"), ("yy", "99"), ("y", "-5879611")],
+            &[("D", "366"), ("DDD", "366"), ("d", "31"), ("dd", "31"), ("M", "12"), ("MM", "12"), ("DD", "99")],
+            &[("s", "59"), ("ss", "59"), ("m", "59"), ("mm", "59"), ("s", "99"), ("mm", "99")],
+            &[("xxx", "+23:59"), ("XXXXX", "-23:59:59"), ("x", "+23"), ("xxxx", "-2359"), ("X", "Z"), ("xxxxx", "+99:99:99")],
+            &[("a", "PM"), ("b", "noon"), ("aaaa", "p.m."), ("bbbb", "midnight"), ("hh", "12"), ("HH", "00")],
+        ];
+        let g = groups[rng.below(groups.len() as u64) as usize];
+        let all = rng.chance(1, 3);
+        let mut pattern = String::new();
+        let mut input = String::new();
+        let k = if all { g.len() } else { 2 + rng.below(g.len() as u64 - 1) as usize };
+        let mut order: Vec<usize> = (0..g.len()).collect();
+        for i in (1..order.len()).rev() {
+            order.swap(i, rng.below(i as u64 + 1) as usize);
+        }
+        for (n, gi) in order.into_iter().take(k).enumerate() {
+            let sep = if n == 0 { "" } else { *rng.pick(&[" ", " ", "/", "|", "T"]) };
+            pattern.push_str(sep);
+            input.push_str(sep);
+            pattern.push_str(g[gi].0);
+            input.push_str(g[gi].1);
+        }
+        // sometimes a second group behind it
+        if rng.chance(1, 3) {
+            let g2 = groups[rng.below(groups.len() as u64) as usize];
+            for _ in 0..1 + rng.below(3) {
+                let (p2, i2) = *rng.pick(g2);
+                pattern.push(' ');
+                input.push(' ');
+                pattern.push_str(p2);
+                input.push_str(i2);
+            }
+        }
+        rec.bin("pile-up/same-component-fields");
+        rec.nontrivial(hash_str(&input) ^ hash_str(&pattern).rotate_left(9));
+        for kind in [Kind::DateTime, Kind::Date, Kind::Time] {
+            judge_parse(rec, kind, &input, &pattern, "same-component-pile-up");
+        }
+        if idx % 4 == 0 {
+            judge_format(rec, &pattern, idx as usize, vr, "same-component-pile-up");
+        }
+    }));
     // (3) grammar-aware mutation of real round-trip material
     wls.push(Workload::cases("mutated_roundtrip_material", ctx.count(300_000, 12_000_000), move |rec, idx, rng| {
         let kind = [Kind::DateTime, Kind::Date, Kind::Time][(idx % 3) as usize];
